@@ -98,19 +98,21 @@ func (c *stackClass_[V]) MakeWithCapacity(capacity uint) StackLike[V] {
 }
 
 func (c *stackClass_[V]) MakeFromArray(values []V) StackLike[V] {
-	var list = List[V](c.notation_).MakeFromArray(values)
-	return &stack_[V]{
-		class_:    c,
-		capacity_: c.defaultCapacity_,
-		values_:   list,
-	}
+	var array = Array[V](c.notation_).MakeFromArray(values)
+	return c.MakeFromSequence(array)
 }
 
 func (c *stackClass_[V]) MakeFromSequence(values Sequential[V]) StackLike[V] {
+	// The stack must be able to hold all of the initial values.
 	var list = List[V](c.notation_).MakeFromSequence(values)
+	var capacity = c.defaultCapacity_
+	var size = uint(list.GetSize())
+	if size > capacity {
+		capacity = size
+	}
 	return &stack_[V]{
 		class_:    c,
-		capacity_: c.defaultCapacity_,
+		capacity_: capacity,
 		values_:   list,
 	}
 }
